@@ -235,6 +235,8 @@ func degenerateKeys() []crypto.PublicKey {
 		&ecdsa.PublicKey{Curve: elliptic.P256(), X: big.NewInt(1), Y: big.NewInt(1)},
 		(*rsa.PublicKey)(nil), &rsa.PublicKey{}, &rsa.PublicKey{E: 65537}, &rsa.PublicKey{N: big.NewInt(15), E: 3},
 		ed25519.PublicKey(nil), ed25519.PublicKey{1, 2}, "not a key", 7,
+		// private keys that carry nothing either (an API that also accepts the private half must survive these)
+		ed25519.PrivateKey(nil), ed25519.PrivateKey{1, 2, 3}, (*ecdsa.PrivateKey)(nil), &ecdsa.PrivateKey{}, (*rsa.PrivateKey)(nil), &rsa.PrivateKey{},
 	}
 }
 
